@@ -118,7 +118,11 @@ inline Goldilocks::Element Goldilocks::fromString(const std::string &in1, int ra
 inline void Goldilocks::fromString(Element &result, const std::string &in1, int radix)
 {
     mpz_class aux(in1, radix);
-    aux = (aux + (uint64_t)GOLDILOCKS_PRIME) % (uint64_t)GOLDILOCKS_PRIME;
+    aux = aux % (uint64_t)GOLDILOCKS_PRIME; // truncates toward zero: the remainder keeps the sign of aux
+    if (aux < 0)
+    {
+        aux += (uint64_t)GOLDILOCKS_PRIME;
+    }
 #if USE_MONTGOMERY == 1
     result.fe = Goldilocks::to_montgomery(aux.get_ui());
 #else
@@ -135,7 +139,11 @@ inline Goldilocks::Element Goldilocks::fromScalar(const mpz_class &scalar)
 
 inline void Goldilocks::fromScalar(Element &result, const mpz_class &scalar)
 {
-    mpz_class aux = (scalar + (uint64_t)GOLDILOCKS_PRIME) % (uint64_t)GOLDILOCKS_PRIME;
+    mpz_class aux = scalar % (uint64_t)GOLDILOCKS_PRIME; // truncates toward zero: the remainder keeps the sign of scalar
+    if (aux < 0)
+    {
+        aux += (uint64_t)GOLDILOCKS_PRIME;
+    }
 #if USE_MONTGOMERY == 1
     result.fe = Goldilocks::to_montgomery(aux.get_ui());
 #else
